@@ -115,6 +115,15 @@ CHECKS = {
             'so far (Iter and Invoke): in every state repr and behaviour of every earlier spec are unchanged and the new spec equals the chain built from scratch.',
             'Reference stages are the functions the documentation names; .map() does not honour SKIP/STOP.',
             '3/C17'),
+    'C13': ('model_checking',
+            'explicit-state search over registration histories on three registries (default Glommer, bare Glommer, module-level registry in a forked child), observing every (operation, class) pair after every event, against a registry model',
+            'For seven hierarchy families (chain, diamond, mixin, iterable/virtual, __slots__, dict and sequence subclasses with and without __dict__): all ordered selections of <= 2 '
+            '(thorough: 3) register() events (class x operation subset x exact) on one registry, with foreign events on another registry in between, and single events / ordered pairs on '
+            'the module-level registry (pristine forked child per history). After every event all five operations are observed through glom()/Assign/Delete on instances of every class '
+            'of the family on every registry: observed behaviour must be admissible for the nearest-registered-type model; warm-memo and cold-memo runs agree; events do not leak between '
+            'registries; Glommer().glom equals glom on a pool incl. Assign/Delete.',
+            'Among incomparable candidates (diamonds, duck types) any minimal one is admissible; module-level histories are limited to depth 2.',
+            '3/C13'),
 }
 
 NOT_YET = {}
